@@ -41,11 +41,32 @@ def _init_worker():
         pass
 
 
+def safe_run(prop, plan):
+    """prop.run(plan); an exception that escapes from inside the library under test at a place where
+    the harness did not expect one is a VIOLATION (the operation must not raise), not a harness
+    error.  Exceptions from harness code propagate."""
+    try:
+        return prop.run(plan)
+    except core.HarnessError:
+        raise
+    except Exception as e:
+        where = core.library_frame(e)
+        if where is None:
+            raise
+        res = core.new_result()
+        res["violations"].append(core.Violation(
+            "library_raised_unexpectedly",
+            f"{type(e).__name__}: {e} (raised in {where} during an operation or read that must "
+            f"succeed)", f"library_raised_unexpectedly:{type(e).__name__}:{where}"))
+        res["digest"] = "raised:" + core.plan_digest(plan)
+        return res
+
+
 def run_one(prop, tier: str, master: int, i: int, keep_plan=False):
     run_seed = derive(master, prop.ID, tier, i)
     plan = prop.gen(Rng(run_seed), tier, i)
     plan["run_seed"] = run_seed
-    res = prop.run(plan)
+    res = safe_run(prop, plan)
     return plan, res
 
 
@@ -123,7 +144,7 @@ def _replay_work(pid: str, plan):
     prop = load_prop(pid)
     faulthandler.dump_traceback_later(RUN_WALL_LIMIT, exit=True)
     try:
-        res = prop.run(plan)
+        res = safe_run(prop, plan)
     except Exception:
         return {"harness_error": traceback.format_exc()}
     finally:
@@ -425,7 +446,7 @@ def replay(pid: str, path: str) -> int:
         return 2
     try:
         prop.setup()
-        res = prop.run(rp["plan"])
+        res = safe_run(prop, rp["plan"])
     except Exception:
         print("HARNESS-ERROR replay failed:\n" + traceback.format_exc(), flush=True)
         return 2
